@@ -1764,6 +1764,12 @@ func (o *c07Oracle) judgeClose(when string, cl *c07Client, cr c07Close) bool {
 			return true
 		}
 	}
+	if o.iceDown[cl.sc.id+"/"+cr.id] {
+		// the transport of this very down connection was made to fail: the
+		// server closes it (and may offer the stream afresh)
+		c.Count("probe.close_after_ice_failure", 1)
+		return true
+	}
 	if len(o.inheritable(cl, s)) > 0 {
 		// the first offer of a replacement follows the per-stream request
 		// made for the replaced stream, later pushes follow the request
